@@ -80,7 +80,30 @@ TripleCases == {x \in {[content |-> << SeqP(1, "1", <<a, b, d>>) >>, attrs |-> <
                   /\ Cardinality({x.content[1].ps[i].k : i \in 1..3} \cap {"ref"}) + Cardinality({i \in 1..3 : x.content[1].ps[i].k = "ref"}) <= 2
                   /\ Cardinality({i \in 1..3 : x.content[1].ps[i].k = "seq"}) <= 1 /\ Cardinality({i \in 1..3 : x.content[1].ps[i].k = "choice"}) <= 1}
 
+\* Slice "recursive": the focus type extends RecBase, which refers (ref=) to the global element RecKid, whose anonymous
+\* type extends RecBase again (a tree); the three stand in each of the 6 orders, so that each of them is reached through a
+\* forward reference while another one is still being converted; optionally preceded by a type that contains itself
+\* through type= and by a ping-pong of two global elements
+RecBase == [k |-> "complex", n |-> "RecBase", base |-> None,
+            content |-> << SeqP(1, "1", << El("baseTitle", B("string"), 1, "1"), Ref("t", "RecKid", 0, "unb") >>) >>,
+            attrs |-> << [k |-> "attr", n |-> "baseId", ty |-> B("string"), use |-> "opt"] >>]
+RecKid == [k |-> "element", n |-> "RecKid",
+           inline |-> [base |-> T("t", "RecBase"), content |-> << SeqP(1, "1", << El("kidOwner", B("string"), 1, "1") >>) >>, attrs |-> <<>>]]
+RecFocus == [k |-> "complex", n |-> "FocusType", base |-> T("t", "RecBase"),
+             content |-> << SeqP(1, "1", << El("subjectMember", B("boolean"), 0, "1") >>) >>, attrs |-> <<>>]
+LinkType == [k |-> "complex", n |-> "LinkType", base |-> None,
+             content |-> << SeqP(1, "1", << El("linkValue", B("int"), 1, "1"), El("linkNext", T("t", "LinkType"), 0, "1") >>) >>, attrs |-> <<>>]
+PingPong == << [k |-> "complex", n |-> "PingType", base |-> None, content |-> << SeqP(1, "1", << Ref("t", "PongEl", 0, "1") >>) >>, attrs |-> <<>>],
+               [k |-> "element", n |-> "PongEl", inline |-> [content |-> << SeqP(1, "1", << El("pongValue", B("string"), 1, "1"), Ref("t", "PingEl", 0, "1") >>) >>, attrs |-> <<>>]],
+               [k |-> "element", n |-> "PingEl", ty |-> T("t", "PingType")] >>
+Perms3 == {<<1, 2, 3>>, <<1, 3, 2>>, <<2, 1, 3>>, <<2, 3, 1>>, <<3, 1, 2>>, <<3, 2, 1>>}
+RecTriple == <<RecFocus, RecBase, RecKid>>
+RecursiveCases == {[items |-> (CASE e = "self" -> <<LinkType>> [] e = "mutual" -> PingPong [] OTHER -> <<>>)
+                               \o << RecTriple[pm[1]], RecTriple[pm[2]], RecTriple[pm[3]] >>,
+                    content |-> RecFocus.content, attrs |-> <<>>, order |-> "before"] : pm \in Perms3, e \in {"none", "self", "mutual"}}
+
 Space == CASE Slice = "builtins" -> BuiltinCases
+           [] Slice = "recursive" -> RecursiveCases
            [] Slice = "positions_all" -> PositionAllCases
            [] Slice = "triples" -> TripleCases
            [] Slice = "nested" -> NestedCases
@@ -97,7 +120,8 @@ Helpers == << [k |-> "complex", n |-> "OtherType", base |-> None,
 Focus(x) == [k |-> "complex", n |-> "FocusType", base |-> None, content |-> x.content, attrs |-> x.attrs]
 File1(x) == [name |-> "f1.xsd", kind |-> "xsd", tns |-> "Unear", xmlns |-> << <<"t", "Unear">>, <<"o", "Ufar">> >>,
              items |-> << [k |-> "import", ns |-> "Ufar", loc |-> "f2.xsd"] >>
-                       \o (IF x.order = "before" THEN Helpers \o <<Focus(x)>> ELSE <<Focus(x)>> \o Helpers)]
+                       \o (IF "items" \in DOMAIN x THEN x.items
+                           ELSE IF x.order = "before" THEN Helpers \o <<Focus(x)>> ELSE <<Focus(x)>> \o Helpers)]
 File2 == [name |-> "f2.xsd", kind |-> "xsd", tns |-> "Ufar", xmlns |-> << <<"o", "Ufar">> >>,
           items |-> << [k |-> "complex", n |-> "FarType", base |-> None,
                         content |-> << SeqP(1, "1", << El("farValue", B("string"), 1, "1") >>) >>, attrs |-> <<>>] >>]
@@ -119,7 +143,13 @@ Agreement ==
 Emit == PrintT(<<"CASE", ToJson([prop |-> "C02", drv |-> "gen", start |-> "f1.xsd", files |-> SetOf(c).files])>>)
 
 N(x, p, s) == [xml |-> x, pascal |-> p, snake |-> s]
-Vocab == [names |-> [FocusType |-> N("FocusType", "FocusType", "focus_type"), OtherType |-> N("OtherType", "OtherType", "other_type"),
+Vocab == [names |-> [RecBase |-> N("RecBase", "RecBase", "rec_base"), RecKid |-> N("RecKid", "RecKid", "rec_kid"),
+                     baseTitle |-> N("baseTitle", "BaseTitle", "base_title"), baseId |-> N("baseId", "BaseId", "base_id"),
+                     kidOwner |-> N("kidOwner", "KidOwner", "kid_owner"), LinkType |-> N("LinkType", "LinkType", "link_type"),
+                     linkValue |-> N("linkValue", "LinkValue", "link_value"), linkNext |-> N("linkNext", "LinkNext", "link_next"),
+                     PingType |-> N("PingType", "PingType", "ping_type"), PongEl |-> N("PongEl", "PongEl", "pong_el"),
+                     PingEl |-> N("PingEl", "PingEl", "ping_el"), pongValue |-> N("pongValue", "PongValue", "pong_value"),
+                     FocusType |-> N("FocusType", "FocusType", "focus_type"), OtherType |-> N("OtherType", "OtherType", "other_type"),
                      CodeType |-> N("CodeType", "CodeType", "code_type"), FarType |-> N("FarType", "FarType", "far_type"),
                      GlobalThing |-> N("GlobalThing", "GlobalThing", "global_thing"),
                      subjectMember |-> N("subjectMember", "SubjectMember", "subject_member"),
